@@ -108,6 +108,8 @@ def main(ctx):
     ctx.coverage["distinct_nontrivial"] = int(ctx.counters["nontrivial"])
     ctx.coverage["error_uris_observed"] = {k[4:]: int(v) for k, v in ctx.counters.items()
                                            if k.startswith("uri|")}
+    for ep in ("named", "mixed", "var+ct", "named+ct", "mixed+ct"):
+        ctx.require("endpoint_signature|%s" % ep)
     for fw in FWS:
         for beh in BEHAVIOURS:
             ctx.require("beh|%s|%s" % (beh, fw))
@@ -389,11 +391,30 @@ def run_case(case):
     det = case["det"]
     state = {"calls": {}, "pending": {}, "progress": {}, "harness_errors": []}
 
+    epv = case.get("ep", "var").split("+")[0]
+
     def make_ep(i):
         beh = invs[i]["beh"]
 
-        def endpoint(*args, **kwargs):
-            details = kwargs.pop("details", None) if det else None
+        # the endpoint's signature: catch-all, named parameters only, or one named parameter
+        # plus *rest / **kwargs; all hand over to the same body
+        if epv == "named":
+            if det:
+                def endpoint(a, b, k=None, details=None):
+                    return body((a, b), {"k": k}, details)
+            else:
+                def endpoint(a, b, k=None):
+                    return body((a, b), {"k": k}, None)
+        elif epv == "mixed":
+            def endpoint(a, *rest, **kwargs):
+                details = kwargs.pop("details", None) if det else None
+                return body((a,) + tuple(rest), kwargs, details)
+        else:
+            def endpoint(*args, **kwargs):
+                details = kwargs.pop("details", None) if det else None
+                return body(args, kwargs, details)
+
+        def body(args, kwargs, details):
             state["calls"].setdefault(i, []).append({
                 "args": list(args), "kwargs": dict(kwargs), "details": details is not None,
                 "progress": bool(details is not None and details.progress is not None),
@@ -442,7 +463,8 @@ def run_case(case):
         session.define(mapped_error_class())
         for i in range(len(invs)):
             session.register(make_ep(i), "com.proc.%d" % i,
-                             options=RegisterOptions(details_arg="details") if det else None)
+                             options=RegisterOptions(details_arg="details") if det else None,
+                             **({"check_types": True} if case.get("ep", "").endswith("+ct") else {}))
 
     link = (Link1 if case["level"] == 1 else Link2)(case, {"on_join": on_join})
     log = []      # (step index, marshalled message)
@@ -696,6 +718,12 @@ def job(a):
                         for args in (("full", "none") if len(script) == 1 else ("full",)):
                             one_case(acc, dict(base, invs=[{"beh": beh, "rp": rp, "args": args}],
                                                det=det, script=script, coalesce=coalesce))
+                        if len(script) <= 2 and not coalesce:
+                            # endpoint signature shapes x register(check_types=True)
+                            for ep in ("named", "mixed", "var+ct", "named+ct", "mixed+ct"):
+                                one_case(acc, dict(base, invs=[{"beh": beh, "rp": rp, "args": "full"}],
+                                                   det=det, script=script, coalesce=False, ep=ep))
+                                acc.inc("endpoint_signature|%s" % ep)
     elif kind == "two":
         scripts = scripts_two()
         for behs in a["behs"]:
